@@ -454,10 +454,11 @@ UNITS['U35k'] = dict(
     title='BOUNDED (seven fixed shapes: LIMIT n <= 2, one batch of <= 4 rows, keys any value in -128..=127): top_n.rs TopN::execute body (slice) with real heap_replace and i64 comparators - keeps the n best rows, LIMIT 0 keeps none',
     harnesses=[dict(name='proofs::%s' % h, bounded='fixed shape %s, unwind 7' % h, unwind=7, clause='min(n, rows) rows kept; each kept key is the key of its recorded row; rows distinct; no dropped row sorts strictly before a kept row; never a panic', fn='TopN::execute[slice] + heap_replace')
                for h in ('limit0_two_rows_asc', 'limit0_one_row_desc', 'limit1_three_rows_asc', 'limit2_two_rows_asc', 'limit2_one_row_asc', 'limit2_four_rows_asc', 'limit2_three_rows_desc')]
+    + [dict(name='proofs::%s' % h, bounded='fixed shape %s, unwind 7' % h, unwind=7, clause='execute then finalize: min(n, rows) distinct rows, in the requested order, none of the dropped rows sorts strictly before the last returned one', fn='TopN::execute[slice] + TopN::finalize[slice]') for h in ('execute_then_finalize_limit2_four_rows_asc', 'execute_then_finalize_limit3_three_rows_desc')]
     + [dict(name='proofs::%s' % h, thorough_only=True, bounded='fixed shape %s, unwind 7 (thorough tier)' % h, unwind=7, clause='same contract', fn='TopN::execute[slice] + heap_replace') for h in ('limit3_four_rows_asc', 'limit1_four_rows_desc', 'two_batches_fill_in_second_asc', 'two_batches_full_after_first_desc')]
     + [dict(name='proofs::vx_canary', expect_fail=True)],
     assumptions=['Vec::with_capacity(n).capacity() == n (TopN::init and execute rely on it; std only promises >= n)', 'R6: scratchpad bindings become parameters of the same guard types (Ref<[T]>, RefMut<Vec<_>>); self.n / self.last_index in a two-field stand-in'],
-    not_covered=['more than two batches (two-batch shapes run in the thorough tier)', 'TopN::finalize (final sort of the kept rows)', 'n > 3', 'the planner choice between top-n and full sort'])
+    not_covered=['more than two batches (two-batch shapes run in the thorough tier)', 'n > 3', 'the planner choice between top-n and full sort'])
 
 UNITS['U37k'] = dict(
     kind='kani', crate='kani/U37', needs_lock=True, timeout_s=900, mem_gb=10,
